@@ -93,6 +93,11 @@ func main() {
 	tier := vlib.Tier()
 	r := vlib.NewRng(vlib.Seed())
 	c := vlib.OpenCases("cases.jsonl")
+	if os.Getenv("VERIF_C02_ONLY") == "history" { // development aid: only the histories
+		histories(c, r.Fork(), tier)
+		c.Close(nil)
+		return
+	}
 	var scs []*scen.Scenario
 	add := func(engine, profile string, kinds []string, chunked bool, ct string) {
 		sc := &scen.Scenario{Engine: engine, Balancer: "priority", Profile: profile, Method: "POST", Path: "/olla/proxy/v1/chat/completions",
@@ -284,6 +289,10 @@ func main() {
 			c.Emit(map[string]any{"kind": "soak", "engine": engine, "impl": soak.Run(engine, map[bool]int{false: 25, true: 250}[tier == "thorough"], 4, 8)})
 			c.Count("soak." + engine)
 		}
+	}
+	// long-lived stacks taken through histories of different scenarios, every step judged by the property's predicate
+	if vlib.ReplayPath() == "" {
+		histories(c, r.Fork(), tier)
 	}
 	c.Close(map[string]any{"exhaustive": true, "exhaustive_note": "all single and pair assignments of the 13 attempt behaviours per engine (and per profile in thorough); triples exhaustive in thorough, sampled 1/12 in quick"})
 }
